@@ -128,8 +128,8 @@ Definition remember_result (st : state) (o : option (list ck)) : state * option 
   | None => (st, None)
   end.
 
-Theorem gen_remember_is_model c r st u ma toks :
-  gen_remember H c r st u ma toks = remember_result st (remember H c r u ma toks).
+Theorem gen_remember_is_model c r st a ma toks :
+  gen_remember H c r st a ma toks = remember_result st (remember H c r (uarg_val a) ma toks).
 Proof.
   unfold gen_remember, remember, eff_ip, encode_userid, enc_of. cbv zeta beta.
   rewrite default_ip_lit.
@@ -156,6 +156,8 @@ Proof.
         with (regex_match tok_first tok_rest tok_dollar x).
       destruct (regex_match tok_first tok_rest tok_dollar x); [|reflexivity].
       rewrite (IH (acc ++ [x]) F HF), <- app_assoc. reflexivity. }
+  (* the type lookup: an exact table type, or anything else (then the str entry and str(x)) *)
+  destruct a as [u|s]; cbn [enc_of_arg uarg_val str_other]; unfold enc_of;
   repeat match goal with
   | |- ?F toks [] = _ =>
       is_fix F; eapply eq_trans; [apply L; intros l0 acc0; destruct l0; cbn beta iota;
@@ -238,7 +240,7 @@ Proof.
   | |- ?F (filter nonempty ?data) (VStr ?u0) = _ =>
       is_fix F; apply L; intros l0 u1; destruct l0; cbn beta iota; [|reflexivity];
         unfold id_tail; change (cmp_eval reissue_cmp) with (fun a b => Z.ltb b a); cbv beta;
-        rewrite ?gen_remember_is_model; unfold remember_result, set_revoked, set_reissued, push_callback;
+        rewrite ?gen_remember_is_model; cbn [uarg_val]; unfold remember_result, set_revoked, set_reissued, push_callback;
         repeat (split_one; cbn beta iota zeta; cbn [negb andb reissued revoked callbacks] in *; try discriminate);
         try reflexivity; try congruence
   | _ => split_one; cbn beta iota zeta; try discriminate
@@ -246,31 +248,140 @@ Proof.
 Qed.
 
 (* ---------------------------------------------------------------- whole operations and sequences *)
-Theorem gen_step_is_model c r st o : gen_step H dsz uni c r st o = step H dsz uni c r st o.
+Theorem gen_step_is_model c r st o : gen_step H dsz uni c r st o = step H dsz uni c r st (op_of o).
 Proof.
-  destruct o as [|u ma toks|]; cbn [gen_step step].
+  destruct o as [|a ma toks|]; cbn [gen_step step op_of].
   - rewrite gen_identify_is_model. reflexivity.
-  - rewrite gen_remember_is_model. destruct (remember H c r u ma toks); reflexivity.
+  - rewrite gen_remember_is_model. destruct (remember H c r (uarg_val a) ma toks); reflexivity.
   - rewrite gen_forget_is_model. reflexivity.
 Qed.
 
 Theorem gen_run_ops_is_model c r ops : forall st,
-  gen_run_ops H dsz uni c r st ops = run_ops H dsz uni c r st ops.
+  gen_run_ops H dsz uni c r st ops = run_ops H dsz uni c r st (map op_of ops).
 Proof.
   induction ops as [|o ops IH]; intros st; [reflexivity|].
-  cbn [gen_run_ops run_ops]. rewrite gen_step_is_model.
-  destruct (step H dsz uni c r st o) as [st1 x]. rewrite IH. reflexivity.
+  cbn [gen_run_ops run_ops map]. rewrite gen_step_is_model.
+  destruct (step H dsz uni c r st (op_of o)) as [st1 x]. rewrite IH. reflexivity.
 Qed.
 
-Theorem gen_run_ops2_is_model c0 r0 c1 r1 ops : forall st,
-  gen_run_ops2 H dsz uni c0 r0 c1 r1 st ops = run_ops2 H dsz uni c0 r0 c1 r1 st ops.
+(* ---------------------------------------------------------------- the policy wrapper *)
+Definition ures_of (x : idres) : ures :=
+  match x with INone => UNone | ISome _ u _ _ => USome u | IRaise => URaise end.
+
+Theorem gen_policy_userid_is_model c r st :
+  gen_policy_userid H dsz uni c r st = (fst (identify H dsz uni c r st), ures_of (snd (identify H dsz uni c r st))).
+Proof.
+  unfold gen_policy_userid. rewrite gen_identify_is_model.
+  destruct (identify H dsz uni c r st) as [st1 [|ts u tk ud|]]; reflexivity.
+Qed.
+
+Theorem gen_policy_remember_is_helper c r st a ma toks :
+  gen_policy_remember H c r st a ma toks = gen_remember H c r st a ma toks.
+Proof. reflexivity. Qed.
+
+Theorem gen_policy_forget_is_helper c r st : gen_policy_forget c r st = gen_forget c r st.
+Proof. reflexivity. Qed.
+
+Theorem gen_pstep_is_step c r st o : gen_pstep H dsz uni c r st o = gen_step H dsz uni c r st o.
+Proof. destruct o; reflexivity. Qed.
+
+Theorem gen_run_ops2_is_model pol c0 r0 c1 r1 ops : forall st,
+  gen_run_ops2 H dsz uni pol c0 r0 c1 r1 st ops = run_ops2 H dsz uni c0 r0 c1 r1 st (map op2_of ops).
 Proof.
   induction ops as [|[b o] ops IH]; intros st; [reflexivity|].
-  cbn [gen_run_ops2 run_ops2]. rewrite !gen_step_is_model.
-  destruct (if b then step H dsz uni c1 r1 st o else step H dsz uni c0 r0 st o) as [st1 x]. rewrite IH. reflexivity.
+  cbn [gen_run_ops2 run_ops2 map]. unfold op2_of at 1. cbn [fst snd].
+  replace (if b then gen_step H dsz uni c1 r1 st o
+           else if pol then gen_pstep H dsz uni c0 r0 st o else gen_step H dsz uni c0 r0 st o)
+    with (if b then step H dsz uni c1 r1 st (op_of o) else step H dsz uni c0 r0 st (op_of o))
+    by (destruct b, pol; rewrite ?gen_pstep_is_step, ?gen_step_is_model; reflexivity).
+  destruct (if b then step H dsz uni c1 r1 st (op_of o) else step H dsz uni c0 r0 st (op_of o)) as [st1 x].
+  rewrite IH. reflexivity.
 Qed.
 
 End G.
+
+(* ================================================================== construction: constructor arguments -> configuration *)
+(* every keyword reaches the attribute of the same name (timeout / reissue_time / max_age through int(), the identity on
+   ints), the CookieProfile gets name, secure, max_age, httponly, path, samesite; the policy hands every keyword on *)
+Theorem gen_helper_init_is_model s n se ii to ri ma ho pa wd al pd dm ss :
+  gen_helper_init s n se ii to ri ma ho pa wd al pd dm ss
+  = (helper_cfg s n se ii to ri ma ho pa wd al pd dm ss, profile_of (helper_cfg s n se ii to ri ma ho pa wd al pd dm ss)).
+Proof. unfold gen_helper_init, helper_cfg, profile_of. destruct to, ri, ma; reflexivity. Qed.
+
+Theorem gen_policy_init_is_model s n se ii to ri ma pa ho wd al pd dm ss :
+  gen_policy_init s n se ii to ri ma pa ho wd al pd dm ss
+  = (helper_cfg s n se ii to ri ma ho pa wd al pd dm ss, profile_of (helper_cfg s n se ii to ri ma ho pa wd al pd dm ss)).
+Proof. unfold gen_policy_init. apply gen_helper_init_is_model. Qed.
+
+Theorem gen_defaults_are_documented s :
+  gen_helper_defaults s = (default_cfg s, profile_of (default_cfg s))
+  /\ gen_policy_defaults s = (default_cfg s, profile_of (default_cfg s)).
+Proof.
+  unfold gen_helper_defaults, gen_policy_defaults. rewrite gen_policy_init_is_model, gen_helper_init_is_model.
+  split; reflexivity.
+Qed.
+
+Lemma helper_args_id c : helper_args c = (c, profile_of c).
+Proof. unfold helper_args. rewrite gen_helper_init_is_model. destruct c; reflexivity. Qed.
+Lemma policy_args_id c : policy_args c = (c, profile_of c).
+Proof. unfold policy_args. rewrite gen_policy_init_is_model. destruct c; reflexivity. Qed.
+
+(* the constructed helper has exactly the configuration asked for, omitted keywords taking the documented defaults *)
+Theorem construct_is_model pol omit c :
+  construct pol omit c = pick omit c (default_cfg (secret c)).
+Proof.
+  unfold construct. destruct (gen_defaults_are_documented (secret c)) as [-> ->].
+  destruct pol; [rewrite policy_args_id|rewrite helper_args_id]; reflexivity.
+Qed.
+
+(* omitting a keyword whose value is the documented default changes nothing *)
+Fixpoint mask_ok (m : list bool) (eqs : list bool) : bool :=
+  match m, eqs with
+  | [], [] => true
+  | b :: m', e :: eqs' => (negb b || e) && mask_ok m' eqs'
+  | _, _ => false
+  end.
+Definition opt_eqb {A} (f : A -> A -> bool) (a b : option A) : bool :=
+  match a, b with Some x, Some y => f x y | None, None => true | _, _ => false end.
+Definition default_eqs (c : cfg) : list bool :=
+  let d := default_cfg (secret c) in
+  [text_eqb (cookie_name c) (cookie_name d); Bool.eqb (secure c) (secure d); Bool.eqb (include_ip c) (include_ip d);
+   opt_eqb Z.eqb (timeout c) (timeout d); opt_eqb Z.eqb (reissue_time c) (reissue_time d);
+   opt_eqb Z.eqb (max_age c) (max_age d); Bool.eqb (http_only c) (http_only d); text_eqb (path c) (path d);
+   Bool.eqb (wild_domain c) (wild_domain d); Bool.eqb (parent_domain c) (parent_domain d);
+   opt_eqb text_eqb (domain c) (domain d); text_eqb (hashalg c) (hashalg d); opt_eqb text_eqb (samesite c) (samesite d)].
+
+Lemma opt_eqb_Z a b : opt_eqb Z.eqb a b = true -> a = b.
+Proof. destruct a, b; simpl; try discriminate; auto. intros E. apply Z.eqb_eq in E. congruence. Qed.
+Lemma opt_eqb_text a b : opt_eqb text_eqb a b = true -> a = b.
+Proof.
+  destruct a, b; simpl; try discriminate; auto. intros E.
+  destruct (text_eqb_spec t t0); [congruence|discriminate].
+Qed.
+Lemma text_eqb_true a b : text_eqb a b = true -> a = b.
+Proof. destruct (text_eqb_spec a b); [auto|discriminate]. Qed.
+
+Theorem construct_omitting_defaults pol omit c :
+  mask_ok omit (default_eqs c) = true -> construct pol omit c = c.
+Proof.
+  rewrite construct_is_model. unfold default_eqs.
+  do 13 (destruct omit as [|? omit];
+         [cbn [mask_ok]; intros E; repeat (apply andb_true_iff in E; destruct E as [_ E]); discriminate|]).
+  destruct omit; [|cbn [mask_ok]; intros E; repeat (apply andb_true_iff in E; destruct E as [_ E]); discriminate].
+  cbn [mask_ok pick]. rewrite !andb_true_iff. intros E.
+  repeat match type of E with _ /\ _ => let E1 := fresh "E" in destruct E as [E1 E] end.
+  destruct c as [s n se ii to ri ma ho pa wd pd dm al ss].
+  cbn [secret cookie_name secure include_ip timeout reissue_time max_age http_only path wild_domain parent_domain
+       domain hashalg samesite default_cfg] in *.
+  f_equal;
+    match goal with
+    | |- (if ?b then _ else _) = _ => destruct b; [|reflexivity]; cbn [negb orb] in *
+    end;
+    first [ symmetry; apply text_eqb_true; assumption
+          | symmetry; apply eqb_prop; assumption
+          | symmetry; apply opt_eqb_Z; assumption
+          | symmetry; apply opt_eqb_text; assumption ].
+Qed.
 
 (* ================================================================== the property theorems, about the regenerated program *)
 Section GenProps.
@@ -300,7 +411,7 @@ Proof.
 Qed.
 
 Theorem gen_reissue_once c r ops :
-  response_cookies (fst (gen_run_ops H dsz uni c r st0 ops)) = spec_response H dsz uni c r ops.
+  response_cookies (fst (gen_run_ops H dsz uni c r st0 ops)) = spec_response H dsz uni c r (map op_of ops).
 Proof. rewrite gen_run_ops_is_model. apply reissue_once. Qed.
 
 Theorem gen_ticket_roundtrip alg ip t sec enc toks ud :
@@ -311,33 +422,70 @@ Theorem gen_ticket_roundtrip alg ip t sec enc toks ud :
   = POk (Z.of_N t) enc (match toks with [] => [[]] | _ => toks end) ud.
 Proof. intros. rewrite gen_parse_ticket_is_model, gen_cookie_value_is_model. apply ticket_roundtrip; assumption. Qed.
 
-Theorem gen_issued_ticket_never_raises c r r' u ma toks st1 st1' hs k v st :
-  H_len H dsz -> H_head H -> (0 <= now r < 4294967296)%Z -> wf_uval u ->
-  gen_remember H c r st1 u ma toks = (st1', Some hs) -> In k hs -> ck_value k = Some v ->
+Theorem gen_issued_ticket_never_raises c r r' a ma toks st1 st1' hs k v st :
+  H_len H dsz -> H_head H -> (0 <= now r < 4294967296)%Z -> wf_uval (uarg_val a) ->
+  gen_remember H c r st1 a ma toks = (st1', Some hs) -> In k hs -> ck_value k = Some v ->
   cookie r' = Some v -> eff_ip c r' = eff_ip c r ->
   snd (gen_identify H dsz uni c r' st) <> IRaise.
 Proof.
   intros HL HH Hn Hw Hr Hin Hv Hck Hip. rewrite gen_identify_is_model.
   rewrite gen_remember_is_model in Hr. unfold remember_result in Hr.
-  destruct (remember H c r u ma toks) as [hs'|] eqn:R; [|discriminate].
+  destruct (remember H c r (uarg_val a) ma toks) as [hs'|] eqn:R; [|discriminate].
   inversion Hr; subst. eapply issued_ticket_never_raises; eauto.
 Qed.
 
-Theorem gen_cookie_attributes c r st u ma toks st' hs k :
-  gen_remember H c r st u ma toks = (st', Some hs) -> In k hs ->
+Theorem gen_cookie_attributes c r st a ma toks st' hs k :
+  gen_remember H c r st a ma toks = (st', Some hs) -> In k hs ->
   attrs_ok c r ma k = true /\ exists v, ck_value k = Some v.
 Proof.
   rewrite gen_remember_is_model. unfold remember_result.
-  destruct (remember H c r u ma toks) as [hs'|] eqn:R; [|discriminate].
+  destruct (remember H c r (uarg_val a) ma toks) as [hs'|] eqn:R; [|discriminate].
   intros E Hin. inversion E; subst. eapply cookie_attributes_remember; eauto.
 Qed.
 
-Theorem gen_two_helpers_accept_implies_digest c0 r0 c1 r1 ops st :
+Theorem gen_two_helpers_accept_implies_digest pol c0 r0 c1 r1 ops st :
   (forall a x, forallb valid_scalar (H a x) = true) ->
   (forall ck0, cookie r0 = Some ck0 -> forallb valid_scalar ck0 = true) ->
   (forall ck0, cookie r1 = Some ck0 -> forallb valid_scalar ck0 = true) ->
   Forall2 (fun (bo : bool * op) x => if fst bo then answer_ok H dsz uni c1 r1 x else answer_ok H dsz uni c0 r0 x)
-          ops (snd (gen_run_ops2 H dsz uni c0 r0 c1 r1 st ops)).
+          (map op2_of ops) (snd (gen_run_ops2 H dsz uni pol c0 r0 c1 r1 st ops)).
 Proof. rewrite gen_run_ops2_is_model. apply two_helpers_accept_implies_digest. Qed.
 
+(* the policy wrapper answers with a user id only for a cookie carrying the keyed digest of its fields, never raises on
+   anything else, and reports exactly the helper's user id *)
+Theorem gen_policy_accept_implies_digest c r st ck0 u :
+  (forall a x, forallb valid_scalar (H a x) = true) -> forallb valid_scalar ck0 = true ->
+  cookie r = Some ck0 ->
+  snd (gen_policy_userid H dsz uni c r st) = USome u ->
+  digest_ok H dsz uni c r ck0 = true.
+Proof.
+  intros HS Hck Hc. rewrite gen_policy_userid_is_model. cbn [snd]. intros E.
+  destruct (digest_ok H dsz uni c r ck0) eqn:D; [reflexivity|].
+  destruct (identify_total H dsz uni c r st ck0 HS Hck Hc D) as [E2 _]. rewrite E2 in E. discriminate.
+Qed.
+
+Theorem gen_policy_total c r st ck0 :
+  (forall a x, forallb valid_scalar (H a x) = true) -> forallb valid_scalar ck0 = true ->
+  cookie r = Some ck0 -> digest_ok H dsz uni c r ck0 = false ->
+  gen_policy_userid H dsz uni c r st = (st, UNone).
+Proof.
+  intros HS Hck Hc D. rewrite gen_policy_userid_is_model.
+  destruct (identify_total H dsz uni c r st ck0 HS Hck Hc D) as [E1 E2]. rewrite E1, E2. reflexivity.
+Qed.
+
 End GenProps.
+
+(* ------------------------------------------------------------------ non-vacuity of the fifth-round statements *)
+Example policy_and_construction_nonvacuous :
+  (* the policy reports bob for bob's ticket *)
+  snd (gen_policy_userid ex_H (fun _ => 2%nat) (fun _ => 63%N) ex_cfg (ex_req (Some ex_cookie) 1001) st0)
+    = USome (VStr [98; 111; 98]%N)
+  (* every keyword of a default configuration may be omitted; ex_cfg's timeout (10) may not *)
+  /\ mask_ok (repeat true 13) (default_eqs (default_cfg [115]%N)) = true
+  /\ mask_ok [false; false; false; true; false; false; false; false; false; false; false; false; false] (default_eqs ex_cfg) = false
+  /\ construct true (repeat true 13) (default_cfg [115]%N) = default_cfg [115]%N
+  (* remember(True): stored as the text 'True' (b64unicode), exactly like remember('True') *)
+  /\ gen_remember ex_H ex_cfg (ex_req None 1000) st0 (UOther [84; 114; 117; 101]%N) None []
+     = gen_remember ex_H ex_cfg (ex_req None 1000) st0 (UKnown (VStr [84; 114; 117; 101]%N)) None []
+  /\ snd (gen_remember ex_H ex_cfg (ex_req None 1000) st0 (UOther [84; 114; 117; 101]%N) None []) <> None.
+Proof. vm_compute. repeat split; discriminate. Qed.
